@@ -7,6 +7,8 @@ package main
 import (
 	"fmt"
 	"go/types"
+	"os"
+	"path/filepath"
 	"strings"
 
 	"golang.org/x/tools/go/ssa"
@@ -137,6 +139,21 @@ func init() {
 		v, ok := e.env[e.goString(args[0])]
 		return Tuple{Str{s: v}, e.tc.Bool(ok)}
 	})
+
+	readFile := func(e *Exec, args []Value, fn *ssa.Function) Value {
+		name := e.goString(args[0])
+		if !filepath.IsAbs(name) {
+			name = filepath.Join(e.cfg.RepoDir, e.cfg.Pkg, name)
+		}
+		b, err := os.ReadFile(name)
+		if err != nil {
+			return Tuple{Slice{}, e.mkErrorS(err.Error())}
+		}
+		e.note("os.ReadFile (real file, read at analysis time): " + name)
+		return Tuple{e.newByteSliceFromString(Str{s: string(b)}), Iface{}}
+	}
+	reg("os.ReadFile", readFile)
+	reg("io/ioutil.ReadFile", readFile)
 
 	// ---- errors ----
 	reg("errors.Is", func(e *Exec, args []Value, fn *ssa.Function) Value {
